@@ -31,4 +31,4 @@ package worker
 // The worker goroutine runs the task of its operator (aggregate.workerTask, the unary negation): engine
 // code over vectors that satisfy the stream contract; no storage callback runs here.
 //@ func (*Worker).start
-//@   trusted assumed not to let a panic escape: the tasks are engine code whose index safety is proved under the stream contract (aggregate tables, unary negation)
+//@   trusted assumed not to let a panic escape: the tasks are engine code whose index safety is proved under the stream contract (aggregate tables, unary negation) - except the float index arithmetic of aggregate.quantile, which is guarded against NaN and out-of-range parameters (proved) but not proved in range
